@@ -421,30 +421,12 @@ def _match_shape(e, pat):
 def check_k2(b, writes):
     if len(writes) != 1 or not writes[0].how.startswith("call:set_int"):
         return Writer(b, "K2", False, "set_int must perform exactly one slice-level set_int")
-    w = writes[0]
-    v = w.value[-1]
-    idx = ("param", b.local_name(2))
-    val = ("param", b.local_name(3))
-    ok = False
-    if is_bin(v, "BitAnd"):
-        for a, m in ((v[2], v[3]), (v[3], v[2])):
-            width = match_mask_call(m)
-            if a == val and width is not None and is_bin(width, "Sub") and width[2] == ("field", ("param", "self"), "length") \
-                    and is_bin(width[3], "Mul") and idx in (width[3][2], width[3][3]):
-                ok = True
-    if not ok:
-        return Writer(b, "K2", False, "stored value `%s` is not v & mask(self.length - idx*BITS)" % show(v))
-    # guard idx*BITS < self.length dominates
-    g = False
-    for sb, t in b.iter_switches():
-        c, m = b.switch_cond(sb)
-        if is_bin(c, "Lt") and is_bin(c[2], "Mul") and idx in (c[2][2], c[2][3]) and c[3] == ("field", ("param", "self"), "length"):
-            tsucc = [s for s, vals in m.items() if "0" not in vals]
-            for s in tsucc:
-                if b.edge_dominates((sb, s), w.loc[0]):
-                    g = True
-    if not g:
-        return Writer(b, "K2", False, "the write is not guarded by idx*BITS < self.length")
+    from . import defs
+    v, why = defs.accessor(b.crate, b, "set_int")
+    if v == "undecided":
+        return Writer(b, "K2", None, why)
+    if v == "violation":
+        return Writer(b, "K2", False, why)
     return Writer(b, "K2", True, "stores v & mask(self.length - idx*BITS) under idx*BITS < self.length")
 
 
@@ -1075,7 +1057,9 @@ def used_words(crate):
             if w.index is None and w.how.startswith("call:") and not any(v in ("get_mut", "last_mut", "first_mut") for v in w.via) \
                     and w.how not in ("call:set_int",) and not _and_only(w):
                 tgt = show(w.target)
-                if "Range" not in tgt and "capacity_from_bit_len" not in tgt:
+                ranged = w.how == "call:copy_within" and any(isinstance(v, tuple) and v[:1] == ("agg",) and str(v[1]).startswith("Range")
+                                                              for v in (w.value or ()))
+                if "Range" not in tgt and "capacity_from_bit_len" not in tgt and not ranged:
                     bad.append("`%s` mutates the whole storage `%s` (allocated words, not used words)" % (w.how[5:], tgt[:50]))
             if w.index is not None and w.index[0] == "iter":
                 # mutable iteration over storage: must be restricted to the used words self.data[..cap(len)]
